@@ -64,6 +64,7 @@ type FnCtx struct {
 	loopAny          bool
 	retVals          []retInfo // for inlining
 	inline           bool
+	tainted          map[Term]bool // root: values through which unknown code can reach objects of this repository (callbacks)
 	loopHelpers      map[ssa.Instruction]int // root: call sites of contract-less helpers whose loops take the root contract's loop specs from this index on
 	loopSpecBase     int                     // inlined helper: index of its first loop among the root contract's loop specs (-1: none)
 	callSite         ssa.Instruction         // inlined helper: the call instruction in the parent
